@@ -488,6 +488,10 @@ impl Prop for C20Prop {
             Some(b) => b,
             None => return,
         };
+        if case.seed % 4 == 0 {
+            // searches that fail and searches that stop early run first on this thread (fault, then recovery)
+            algo::poison_prelude(env, cx);
+        }
         sweep(&b.g, &b.snap, case, env.keying, cx);
         cx.count(&format!("shape.{}", case.p_str("shape").unwrap_or("random")));
         if env.keying == 0 {
@@ -496,7 +500,7 @@ impl Prop for C20Prop {
         }
     }
     fn rule(&self) -> String {
-        format!("programs x inputs: a registry of every public function that takes a graph is called on {} degenerate shapes ({}) x 8 graph kinds x weighted/unweighted (enumerated, cases 0..{}), plus small random graphs from lifecycle histories and shapes; arguments: every existing name, every ordered pair, k in {{1,2,n,n+1}}, subsets, and for functions returning Result/Option one absent name; 2 hash keyings. Monitors: catch_unwind (overflow checks and debug assertions on), step budget, worker death. Oracle: the call returns; with an absent name a Result/Option function returns Err/None; a function whose documentation or C02/C10/C11 declare a kind restriction returns Err on the other kind. distinct_nontrivial = distinct (graph, specs) swept", SHAPES.len(), SHAPES.join(", "), SHAPES.len() * 16)
+        format!("programs x inputs: a registry of every public function that takes a graph is called on {} degenerate shapes ({}) x 8 graph kinds x weighted/unweighted (enumerated, cases 0..{}), plus small random graphs from lifecycle histories and shapes; arguments: every existing name, every ordered pair, k in {{1,2,n,n+1}}, subsets, and for functions returning Result/Option one absent name; 2 hash keyings. Monitors: catch_unwind (overflow checks and debug assertions on), step budget, worker death. Oracle: the call returns; with an absent name a Result/Option function returns Err/None; a function whose documentation or C02/C10/C11 declare a kind restriction returns Err on the other kind. distinct_nontrivial = distinct (graph, specs) swept; in a quarter of the cases searches that fail and searches that stop early run first on the thread; in a third of the cases a battery of valid unjudged calls runs first on a sibling graph (same names and edges, other node order), in a fifth the graph is queried on the same object before its last one to three operations are applied (DESIGN.md 0.2)", SHAPES.len(), SHAPES.join(", "), SHAPES.len() * 16)
     }
     fn assumptions(&self) -> Vec<String> {
         vec!["the registry is maintained by hand; coverage.extra lists public functions found in /repo/src that it does not call".into(), "functions without an error channel are called with existing names only; error KINDS are not judged here, only that the error channel is used".into()]
